@@ -13,8 +13,6 @@ from __future__ import annotations
 import itertools
 import re
 
-import z3
-
 from engine import symex, sstr, reshim
 from engine.sstr import SStr
 
@@ -154,11 +152,6 @@ def build(c, base: str, tpl: str):
 
 def chars_of(x):
     return tuple(x) if isinstance(x, str) else x.cs
-
-
-def z(cond):
-    """bool | z3 Bool | SBool -> something c.check / c.assume accept"""
-    return cond
 
 
 # ------------------------------------------------------------------------------
@@ -792,6 +785,9 @@ META = {
               'directly (no alias generation); history=index/incremental: SharedItem objects are created directly',
               'history=scan/vanished/appeared/changed: shares.manager.scan_directory (os.walk + getmtime) -> the harness listing (also in replays); '
               'scan_directory_files runs on engine.vloop.VLoop (run_in_executor synchronous)',
+              'module-level containers / lru_caches of the four modules under test are reset to their import-time content at the start '
+              'of every path and replay (each path = a freshly started process; state carried from query to query is covered by the '
+              'two-query jobs)',
               'concrete replay: plain str, real re, real os, real hashing; only the scan_directory listing remains'],
     'data_variables': ['every character of every file name (2..4 files, 1..4 free characters each plus pinned separators in some templates, each '
                        'free character over the whole alphabet Σ = ' + ''.join(SIGMA) + ')',
